@@ -248,6 +248,24 @@ func genCase(t *rapid.T) Case {
 		c.Proxies = append(c.Proxies, rapid.SampledFrom(oddItems[:3]).Draw(t, "oddp"))
 	}
 	c.Peer = rapid.SampledFrom(peers).Draw(t, "peer")
+	if len(c.Proxies) > 0 && rapid.IntRange(0, 3).Draw(t, "peerlike") == 0 {
+		// a peer whose address only resembles a configured one: the same 32 bits inside an IPv6 address that is not
+		// the IPv4-mapped form, or a neighbour
+		it := rapid.SampledFrom(c.Proxies).Draw(t, "like")
+		if i := strings.Index(it, "/"); i != -1 {
+			it = it[:i]
+		}
+		if a, err := netip.ParseAddr(it); err == nil && a.Unmap().Is4() {
+			v4 := a.Unmap().String()
+			c.Peer = rapid.SampledFrom([]string{"2001:db8::" + v4, "64:ff9b::" + v4, "::" + v4, "::fffe:" + v4, "fe80::" + v4, a.Unmap().Next().String()}).Draw(t, "likepeer")
+		} else if err == nil {
+			b := a.As16()
+			hi, lo := b, b
+			hi[0] ^= 0x10
+			lo[15] ^= 0x02
+			c.Peer = rapid.SampledFrom([]string{netip.AddrFrom16(hi).String(), netip.AddrFrom16(lo).String(), a.Next().String()}).Draw(t, "likepeer6")
+		}
+	}
 	if rapid.IntRange(0, 3).Draw(t, "derived") == 0 {
 		c.DerivedFrom = rapid.SliceOfNDistinct(rapid.SampledFrom(pool), 1, 3, rapid.ID[string]).Draw(t, "derivedFrom")
 	}
